@@ -19,7 +19,7 @@ from harness.core import q, z, coq_list, coq_opt, coq_str
 PID = "C17"
 GEN_GROUPS = ["Tariffs", "TariffK"]
 TARGETS = ["coq/Props/C17.vo", "coq/Model/Tariff.vo"]
-CASES = {"quick": 1200, "thorough": 12000}
+CASES = {"quick": 1200, "thorough": 5000}
 CORR_HEADER = ("From Coq Require Import ZArith QArith List String.\n"
                "From ACN Require Import Base.Num Base.TariffRaw Gen.Tariffs Model.Tariff.\nImport ListNotations.\n"
                "Open Scope string_scope.\nOpen Scope Z_scope.\n")
@@ -943,7 +943,7 @@ def gen_cases_main(rng, n, tier, names):
     return cases
 
 
-INLINE_HEADER_FILES = {"quick": 40, "thorough": 200}
+INLINE_HEADER_FILES = {"quick": 40, "thorough": 100}
 
 
 def extra_streams(rng, tier):
